@@ -162,7 +162,7 @@ def make_check(cmd, table):
 
         with lib("attach"):
             s, dev = devs.attach(table, blocksize=a.get("blocksize", 512) if isinstance(a, dict) else 512,
-                                 responder=responder)
+                                 responder=responder, variant=case.get("devvariant", 0))
         try:
             with lib("facade " + cmd.facade):
                 c = call(cmd, s, a)
@@ -275,6 +275,10 @@ def check_documented(cmd, table):
     return check
 
 
+def with_variant(strategy):
+    return st.tuples(strategy, st.integers(0, 2)).map(lambda t: dict(t[0], devvariant=t[1]))
+
+
 def run(ctx):
     from pyscsi.pyscsi.scsi import SCSI
 
@@ -283,7 +287,7 @@ def run(ctx):
     for cmd in facade_cmds():
         for table in cmd.tables():
             subject = "%s@%s" % (cmd.name, table)
-            common.search(ctx, subject, case_for(cmd), make_check(cmd, table), n)
+            common.search(ctx, subject, with_variant(case_for(cmd)), make_check(cmd, table), n)
             if table == cmd.tables()[0] or ctx.thorough:
                 for case in subset_cases(cmd):
                     i += 1
